@@ -261,7 +261,7 @@ func faultTable() []faultCase {
 	add("CallNative/callback-panics", "host.Call(func() { panic(\"cb\") })", pe+"cb$")
 	add("Go/nil-func", "var f func()\ngo f()", "^error:fatal error: go of nil func value$")
 	add("Range/nil-array-pointer", "var p *[2]int\nfor i, x := range p { println(i, x) }", pe+"runtime error: invalid memory address or nil pointer dereference$")
-	// recursion deeper than the initial register stacks (512): the stacks grow (fix 06a16cd); unbounded
+	// recursion deeper than the initial register stacks (512): the stacks grow (fix 1709e08); unbounded
 	// recursion is not run: it exhausts the memory of the process, as under gc
 	add("Call/deep-recursion", "println(deep(5000))", "^nil$")
 	add("Range/nil-array-pointer-index-only", "var p *[2]int\nfor i := range p { println(i) }", "^nil$")
